@@ -645,10 +645,24 @@ func (cmd *Command) printDiagnostics(cs []*lint.Analyzer, diagnostics []diagnost
 			if di.Message != dj.Message {
 				return di.Message < dj.Message
 			}
-			if di.BuildName != dj.BuildName {
-				return di.BuildName < dj.BuildName
+			// Diagnostics that only differ in their build name have to end up
+			// next to each other for the de-duplication below, so the build
+			// name is compared last.
+			if di.Category != dj.Category {
+				return di.Category < dj.Category
 			}
-			return di.Category < dj.Category
+			if ei, ej := di.End, dj.End; ei != ej {
+				if ei.Filename != ej.Filename {
+					return ei.Filename < ej.Filename
+				}
+				if ei.Line != ej.Line {
+					return ei.Line < ej.Line
+				}
+				if ei.Column != ej.Column {
+					return ei.Column < ej.Column
+				}
+			}
+			return di.BuildName < dj.BuildName
 		})
 
 		filtered := []diagnostic{
